@@ -270,7 +270,54 @@ def _add_line_numbers(seed):
     return bounded.c16_add_line_numbers(seed)
 
 
-QUICK_BOUNDED = [gls_bounded, html_rendering_bounded, _add_line_numbers]
+def macroname_bounded(seed):
+    """shell/utils.correct_mark_macroname (used for the highlight of a match
+    on a single backslash): the length is extended to the macro name that
+    starts AT the offset, and only then -- all texts of length <= 6 over
+    {backslash, a, B, %, blank, newline}, all offsets, lengths 1 and 2"""
+    import itertools
+    import re
+    from pyvc import replay as _r
+    ut = _r.real_module('yalafi.shell.utils')
+    n, fails = 0, []
+    for ln in range(0, 7):
+        for t in itertools.product('\\aB% \n', repeat=ln):
+            tex = ''.join(t)
+            for off in range(-1, len(tex) + 1):
+                for length in (1, 2):
+                    n += 1
+                    want = length
+                    if length == 1 and 0 <= off < len(tex) - 1 and \
+                            tex[off] == '\\':
+                        k = off + 1
+                        while k < len(tex) and tex[k].isascii() and \
+                                tex[k].isalpha():
+                            k += 1
+                        if k > off + 1:
+                            want = k - off
+                    try:
+                        got = ut.correct_mark_macroname(off, length, tex)
+                    except Exception as e:      # noqa
+                        got = 'exception %r' % (e,)
+                    if got != want:
+                        fails.append({'latex': tex, 'offset': off,
+                                      'length': length, 'got': got,
+                                      'expected': want})
+                        if len(fails) >= 3:
+                            return _mres(n, fails)
+    return _mres(n, fails)
+
+
+def _mres(n, fails):
+    return {'name': 'macro-name-highlight-starts-at-the-offset',
+            'bounded': True,
+            'bound': 'all texts of length <= 6 over 6 characters x all '
+                     'offsets x lengths 1, 2',
+            'evaluations': n, 'failures': fails}
+
+
+QUICK_BOUNDED = [gls_bounded, html_rendering_bounded, _add_line_numbers,
+                 macroname_bounded]
 
 TRUSTED = [
     're.sub with a single literal character as pattern and a literal replacement is a character-wise map (checked on all pairs '
